@@ -210,9 +210,12 @@ def Circ.replace (c : Circ) (p : Int × Int) (o : Op) : Circ × Except Err Unit 
       let (c1, r1) := c.pop (some p)
       match r1 with
       | .error e => (c1, .error e)
-      | .ok _ => c1.insert p.1 o
+      | .ok _ => c1.insert (k : Int) o     -- the point is normalised before the pop
 
-def Circ.batchReplace (c : Circ) (items : List ((Int × Int) × Op)) : Circ × Except Err Unit :=
+def Circ.batchReplace (c : Circ) (items0 : List ((Int × Int) × Op)) : Circ × Except Err Unit :=
+  if !(items0.all (fun it => c.cycleInRange it.1.1 && c.qubitInRange it.1.2)) then (c, .error .index) else
+  let items : List ((Int × Int) × Op) := items0.map (fun it =>
+    (((normIdx c.numCycles it.1.1 : Nat), (normIdx c.numQudits it.1.2 : Nat)), it.2))
   let sorted := items.foldr (fun x acc =>
     let rec ins : List ((Int × Int) × Op) → List ((Int × Int) × Op)
       | [] => [x]
@@ -279,14 +282,18 @@ def Circ.appendCircuit (c : Circ) (sub : Circ) (location : List Nat) : Circ × E
 
 def Circ.insertCircuit (c : Circ) (ci : Int) (sub : Circ) (location : List Nat) :
     Circ × Except Err Unit :=
-  if sub.numQudits != location.length then (c, .error .value) else
+  if sub.numQudits != location.length then (c, .error .value)
+  else if ci ≥ (c.numCycles : Int) then c.appendCircuit sub location   -- past the end: append forwards
+  else
   sub.iterRev.foldl (fun (acc : Circ × Except Err Unit) o =>
     match acc.2 with
     | .error _ => acc
     | .ok () => acc.1.insert ci (o.mapLoc location)) (c, .ok ())
 
 /-- `replace_with_circuit(point, circuit)` (not as a circuit gate) -/
-def Circ.replaceWithCircuit (c : Circ) (p : Int × Int) (sub : Circ) : Circ × Except Err Unit :=
+def Circ.replaceWithCircuit (c : Circ) (p0 : Int × Int) (sub : Circ) : Circ × Except Err Unit :=
+  if !(c.cycleInRange p0.1 && c.qubitInRange p0.2) then (c, .error .index) else
+  let p : Int × Int := ((normIdx c.numCycles p0.1 : Nat), (normIdx c.numQudits p0.2 : Nat))
   let (c1, r) := c.pop (some p)
   match r with
   | .error e => (c1, .error e)
